@@ -1016,6 +1016,20 @@ func (a *Analysis) spuriousRejections(paths []*Path) []string {
 		if guardOK(last) {
 			return true, nil
 		}
+		// the availability guard may be followed by tests that only pick the error to report (nothing left at all:
+		// io.EOF, otherwise io.ErrUnexpectedEOF): conditions on the buffer's length alone
+		for i := len(conds) - 1; i >= 0; i-- {
+			c := conds[i]
+			if guardOK(c) {
+				return true, nil
+			}
+			onlyLen := c.V.Contains(func(x *Val) bool { return x.Op == "buflen" }) && !c.V.Contains(func(x *Val) bool {
+				return x.Op == "wire" || x.Op == "bufbytes" || x.Op == "bufnext" || x.Op == "short" || x.Op == "init" || x.Op == "elem"
+			})
+			if !onlyLen {
+				break
+			}
+		}
 		if !last.V.Contains(func(x *Val) bool {
 			return x.Op == "wire" || x.Op == "buflen" || x.Op == "bufbytes" || x.Op == "bufnext" || x.Op == "short" || x.Op == "init" || x.Op == "elem"
 		}) {
